@@ -115,7 +115,8 @@ def gen_case(rng, layout_name, *, n_tempo=None, long_bpm=False, density=None):
     order = list(range(len(tempo)))
     if len(order) > 1 and rng.random() < 0.35:
         rng.shuffle(order)
-    return dict(layout=layout_name, tempo=tempo, lnobj=lnobj, samples=samples, objs=objs, meta=meta, tempo_row_order=order)
+    return dict(layout=layout_name, tempo=tempo, lnobj=lnobj, samples=samples, objs=objs, meta=meta, tempo_row_order=order,
+                labels="gappy" if rng.random() < 0.3 else "default", via_file=rng.random() < 0.15)
 
 
 def build_map(case):
@@ -132,6 +133,9 @@ def build_map(case):
     if perm is not None and len(perm) == len(bpm_rows):
         bpm_rows = [bpm_rows[i] for i in perm]
     m.bpms = BMSBpmList(bpm_rows)
+    if case.get("labels") == "gappy" and len(bpm_rows):
+        # the row labels of a list are arbitrary (after rate / stack edits / filters they are not 0..n-1)
+        m.bpms = BMSBpmList(m.bpms.df.set_axis([3 * i + 2 for i in range(len(bpm_rows))][::-1]))
     m.hits = BMSHitList([BMSHit(offset=o["t"], column=o["col"], sample=o["sample"].encode("shift_jis")) for o in case["objs"] if o["kind"] == "hit"])
     m.holds = BMSHoldList([BMSHold(offset=o["t"], column=o["col"], length=o["len"], sample=o["sample"].encode("shift_jis")) for o in case["objs"] if o["kind"] == "hold"])
     m.samples = {k.encode(): v.encode("shift_jis") for k, v in case["samples"].items()}
@@ -187,6 +191,27 @@ def run_case(case):
         return [("write_raises", f"{type(e).__name__}: {e}")], obs
     if not isinstance(data, (bytes, bytearray)):
         return [("write_raises", f"write returned {type(data).__name__}, not bytes")], obs
+    if case.get("via_file"):
+        # write_file(path, layout) must put exactly write(layout) into the file
+        import os
+        import tempfile
+        import warnings
+
+        m2, _ = build_map(case)
+        fd, path = tempfile.mkstemp(suffix=".bms")
+        os.close(fd)
+        try:
+            with warnings.catch_warnings():
+                warnings.simplefilter("ignore")
+                m2.write_file(path, note_channel_config=lay)
+            with open(path, "rb") as f:
+                got = f.read()
+            if got != bytes(data):
+                fails.append(("write_file_equals_write", f"write_file(path, {case['layout']}) wrote {len(got)} bytes that differ from write({case['layout']})"))
+        except Exception as e:  # noqa
+            fails.append(("write_file_equals_write", f"write_file raised {type(e).__name__}: {e}"))
+        finally:
+            os.unlink(path)
 
     # ---- every line syntactically valid
     for ln in data.replace(b"\r\n", b"\n").split(b"\n"):
